@@ -12,5 +12,6 @@ CONSTANTS
   Variant = "@VARIANT@"
   Eager = @EAGER@
   Abort = "@ABORT@"
+  CbErr = @CBERR@
 PROPERTIES Termination
 CHECK_DEADLOCK FALSE
